@@ -1076,6 +1076,8 @@ class Interp(object):
             except _Continue:
                 pass
             except _Break:
+                if getattr(spec, 'on_break', None) is not None:
+                    spec.on_break(st)        # the iteration that leaves the loop: its per-iteration obligations
                 return
             if spec.after_body is not None:
                 spec.after_body(st)
